@@ -220,11 +220,43 @@ func TestC05(t *testing.T) {
 		}
 		r.Count("saturation_checkpoints_passed", int64(c.res.SatChecks))
 		r.Count("release_groups_inside_window", int64(c.res.SatGroups))
+		if len(c.sc.Inputs) > 0 && c.sc.Inputs[0].Writers > 0 {
+			r.Count("small_buffers_kept_full_by_parked_writers.scenarios", 1)
+			r.Count("small_buffers_kept_full_by_parked_writers.checkpoints_passed", int64(c.res.SatChecks))
+		}
+		if c.res.ReAdds > 0 {
+			r.Count("scenarios_with_AddInput_of_the_same_channel", 1)
+		}
 		if len(c.sc.Inputs) >= 2 && c.res.SatGroups >= 5 && c.res.SatChecks >= 3 {
 			r.NonTrivial(jsonString(c.sc))
 			if r.WantSample() {
 				r.Sample(prioSample(c))
 			}
+		}
+	})
+	// real clock: inputs with a small buffer kept non-empty by one-shot senders that are all
+	// parked before the discipline is created; per-priority in-flight <= share after every receive
+	r.Parallel(t, "real-small-buffers", r.Cfg.pick(150, 3000), func(t *testing.T, idx int, rng *rand.Rand) {
+		sc := genSatRealScenario(rng)
+		res := runPrioSatReal(sc)
+		r.Eval(1)
+		if res.Rejected != "" {
+			r.Count("rejected_by_constructor", 1)
+			return
+		}
+		for _, f := range res.Findings {
+			r.Violation(f.Prop, f.Key+":"+sc.Ver, f.Msg, map[string]any{"scenario": sc})
+		}
+		if res.Stuck != "" {
+			r.Inconclusive("real-clock saturation scenario did not finish: " + res.Stuck + " " + jsonString(sc))
+			return
+		}
+		r.Count("real.scenarios."+sc.Ver, 1)
+		r.Count("real.senders_verified_parked_before_creation", int64(res.Parked))
+		r.Count("real.receives_judged_while_saturated", res.ArmedRecv)
+		r.Max("real.max_held", res.MaxHeld)
+		if len(sc.Inputs) >= 2 && res.ArmedRecv >= int64(3*sc.H) {
+			r.NonTrivial("real:" + jsonString(sc))
 		}
 	})
 }
